@@ -114,6 +114,9 @@ def run(rep, idx, tier):
 
 def one(rep, c, rule, what, target, value, assume):
     ds = c.drivers_of(target)
+    if not ds and c.overlapping(target):
+        rep.unk(rule, c.fi.site, what, f"{c.show(target)} is " + "driven bit by bit / slice by slice; the rule compares the signal as a whole and does not assemble it")
+        return
     if not ds:
         rep.bad(rule, c.fi.site, what, f"{c.show(target)} is never driven")
         return
@@ -153,8 +156,9 @@ def geometry(rep, idx, c, ctor, calls):
               f"shape is {ir.show(kwarg(md, 'shape') or ('const', None))}")
     # bus address width = exact_log2(depth)
     aw_ok = False
-    if AW is not None and AW[0] == 'call' and AW[1] == ('name', 'exact_log2') and len(AW[2]) == 1:
-        a = AW[2][0]
+    from .common import log2_arg
+    a = log2_arg(ctor, AW) if AW is not None else None     # exact_log2(X) or a bit_length form: equal on powers of two
+    if a is not None:
         aw_ok = a == depth or resolves_to_depth(ctor, a, md)
     rep.check(aw_ok, "C15.4", site, "bus address width == exact_log2(memory depth)",
               f"addr_width is {ir.show(AW) if AW else None}")
@@ -162,7 +166,8 @@ def geometry(rep, idx, c, ctor, calls):
     if mm is None or mm[0] != 'call':
         rep.bad("C15.4", site, "memory map publication", "self.wb_bus.memory_map is not assigned a MemoryMap(...) in __init__")
     else:
-        rep.check(kwarg(mm, 'addr_width') == ctor.parse("exact_log2(size)"), "C15.4", site,
+        maw = kwarg(mm, 'addr_width')
+        rep.check(maw is not None and log2_arg(ctor, maw) == ('name', 'size'), "C15.4", site,
                   "map addr_width == exact_log2(size)", f"is {ir.show(kwarg(mm, 'addr_width') or ('const', None))}")
         rep.check(kwarg(mm, 'data_width') == G, "C15.4", site, "map data_width == bus granularity",
                   f"is {ir.show(kwarg(mm, 'data_width') or ('const', None))}; granularity is {ir.show(G)}")
